@@ -68,11 +68,17 @@ class ParsedAnsiControlSequenceString:
                 # This is the start of a Control Sequence Introducer command
                 i += len(ansi_control_sequence_introducer)
                 current_seq = ''
-                while i < len(s) and (ord(s[i]) < ansi_term_ord_range[0] or ord(s[i]) > ansi_term_ord_range[1]):
+                # An escape character is neither a parameter nor a terminator: it aborts this sequence (which is then
+                # unterminated) and is not consumed, since another sequence may start with it
+                while (
+                    i < len(s)
+                    and s[i] != '\x1b'
+                    and (ord(s[i]) < ansi_term_ord_range[0] or ord(s[i]) > ansi_term_ord_range[1])
+                ):
                     current_seq += s[i]
                     i += 1
                 terminator = ''
-                if i < len(s):
+                if i < len(s) and s[i] != '\x1b':
                     terminator = s[i]
                     i += 1
                 if (terminator or allow_empty_terminator) and (acceptable_terminators is None or terminator in acceptable_terminators):
